@@ -47,6 +47,22 @@ type c03H2Scenario struct {
 	closeAt  int    // >= 0: the (streaming) caller reads this many bytes, then closes the body; the peer leaves the stream open
 	enc      string // Content-Encoding of the response ("" = none): the body is the ENCODED byte string
 	surplus  []byte // the bytes sent beyond the body (len = extra); nil = extra times 'X'
+	extraHdr [][2]string // further response header fields (prelude exchanges: challenge, location)
+}
+
+// c03H2Prelude is the complete, body-less exchange in front of the scripted one (see c03Positions):
+// it takes stream 1, the scripted response answers stream 3 of the same connection.
+func c03H2Prelude(pos string) c03H2Scenario {
+	sc := c03H2Scenario{name: "prelude-" + pos, declared: 0, frames: 1, ending: "end-stream", complete: true, closeAt: -1}
+	switch pos {
+	case "digest":
+		sc.status, sc.extraHdr = 401, [][2]string{{"www-authenticate", `Digest realm="c03", nonce="5f1c0a77c03", qop="auth", algorithm=MD5`}}
+	case "retried":
+		sc.status = 503
+	case "redirect":
+		sc.status, sc.extraHdr = 302, [][2]string{{"location", "/after-redirect"}}
+	}
+	return sc
 }
 
 func c03Extra(surplus []byte, extra int) []byte {
@@ -97,6 +113,7 @@ func c03H2Plan(sc c03H2Scenario) []c03H2Fr {
 	if sc.enc != "" {
 		fields = append(fields, [2]string{"content-encoding", sc.enc})
 	}
+	fields = append(fields, sc.extraHdr...)
 	endsByFlag := sc.ending == "end-stream" || sc.ending == "end-stream-then-rst"
 	fr = append(fr, c03H2Fr{kind: "H", fields: fields, es: sc.headES || (endsByFlag && sc.send+sc.extra == 0 && !sc.trailers)})
 	payload := []byte(sc.body)[:sc.send]
@@ -307,6 +324,7 @@ func TestVerif_C03_h2cut(t *testing.T) {
 			"MODEL-judged: fail / fail-call / fail-body delivered=<bytes> / retry (replayed) / ok status body, and dials after the second request (1 iff the model's connection can take a new request and is in the pool). "+
 			"Second opinion (Go oracle): success implies a complete consistent response and the true body; the second request succeeds. non-trivial = fault injected")
 	r := s.Rand()
+	rp := c03PosRand(3) // the round-6 dimensions draw from their own stream
 	peer := newC03H2Peer(t)
 	defer func() { peer.ln.Close(); peer.reset(nil) }()
 	url := "http://" + peer.ln.Addr().String() + "/x"
@@ -496,6 +514,19 @@ func TestVerif_C03_h2cut(t *testing.T) {
 			cc.prepClient(c)
 		}
 		ze.prep(c)
+		// exchange position: the scripted response answers the LAST exchange of the call (stream 3),
+		// a complete body-less prelude (401 challenge / 503 / 302) takes stream 1
+		sid := 1
+		if cc.pos = c03PickPos(rp, cc.mode, true); cc.pos != "" {
+			c03ApplyPos(c, cc.pos)
+			peer.reset([]c03H2Scenario{c03H2Prelude(cc.pos), sc})
+			sid = 3
+			s.Count("pos:" + cc.pos)
+			reached["pos:"+cc.pos]++
+			if !sc.complete {
+				reached["pos-cut:"+cc.pos]++
+			}
+		}
 		method := "GET"
 		if sc.head {
 			method = "HEAD"
@@ -582,7 +613,7 @@ func TestVerif_C03_h2cut(t *testing.T) {
 		if ze != nil {
 			lane = "c03h2z " + ze.enc + " "
 		}
-		line := lane + map[bool]string{true: "1", false: "0"}[sc.head] + " 1 " + c03H2Events(c03H2Plan(sc), 1) + " " + mode
+		line := lane + map[bool]string{true: "1", false: "0"}[sc.head] + " " + strconv.Itoa(sid) + " " + c03H2Events(c03H2Plan(sc), uint32(sid)) + " " + mode
 		// second opinion: the Go-side property oracle
 		ok, why := true, ""
 		if sc.closeAt >= 0 {
@@ -623,8 +654,8 @@ func TestVerif_C03_h2cut(t *testing.T) {
 		reached[sc.name]++
 		s.Count("scenario:" + sc.name)
 		s.Count("dials:" + strconv.Itoa(dials))
-		human := fmt.Sprintf("h2 %s enc=%s declared=%d body=%d sent=%d extra=%d frames=%d interim=%d caller=%s -> %s (%s) second-ok=%v dials=%d",
-			sc.name, ze.tag(), sc.declared, len(body), sc.send, sc.extra, sc.frames, sc.interim, callerName, c04Short(first), ferr, secondOK, dials)
+		human := fmt.Sprintf("h2 %s enc=%s declared=%d body=%d sent=%d extra=%d frames=%d interim=%d caller=%s pos=%s -> %s (%s) second-ok=%v dials=%d",
+			sc.name, ze.tag(), sc.declared, len(body), sc.send, sc.extra, sc.frames, sc.interim, callerName, cc.pos, c04Short(first), ferr, secondOK, dials)
 		if why != "" {
 			human += " ORACLE: " + why
 		}
@@ -647,7 +678,8 @@ func TestVerif_C03_h2cut(t *testing.T) {
 	for _, need := range []string{"ok", "fail", "complete", "complete-head-with-length", "rst-code-0", "rst-code-8", "goaway-code-0-last-at", "goaway-code-0-last-below", "goaway-graceful-complete", "rst-noerror-after-end-stream", "tcp-close", "midframe", "short-end-stream", "overlong", "overlong-late-frame", "overlong-at-read-buffer", "overlong-zero-length", "close-before-headers",
 		"rst-before-headers-code-7", "rst-before-headers-code-1", "rst-before-headers-code-0", "goaway-before-headers-code-0-last-below", "goaway-before-headers-code-2-last-below", "complete-with-trailers", "short-with-trailers", "data-after-end-stream", "headers-end-stream-with-length", "caller-closes-early",
 		"enc-fault-before-first-byte", "enc-short-at-member-boundary", "enc-overlong-member", "enc:gzip-transparent", "enc:gzip-auto", "enc:deflate-auto", "enc:br-auto", "enc:zstd-auto",
-		"enc-fault:gzip", "enc-fault:deflate", "enc-fault:br", "enc-fault:zstd", "zstd-frame-start-cut"} {
+		"enc-fault:gzip", "enc-fault:deflate", "enc-fault:br", "enc-fault:zstd", "zstd-frame-start-cut",
+		"pos:digest", "pos:retried", "pos:redirect", "pos-cut:digest", "pos-cut:retried", "pos-cut:redirect"} {
 		if reached[need] == 0 {
 			t.Errorf("C03/h2cut never reached %q", need)
 		}
